@@ -682,10 +682,84 @@ fn fam_format_any(ctx: &mut Ctx, r: &mut Rng) {
             }
         }
     };
+    // P-level (independent of the model): a format string that was ACCEPTED substitutes every
+    // placeholder and keeps all other text — in particular a row never comes out as an error text,
+    // because whatever is wrong with a format string has to be found before any input is read
+    if let (Ok(Ok(b)), true) = (&got, pipe.compiled) {
+        if let Some(re) = accepted_format_shape(&fmt, &data) {
+            let text = String::from_utf8_lossy(b).to_string();
+            let line = text.strip_suffix('\n').unwrap_or(&text);
+            if !re.is_match(line) {
+                info["class"] = serde_json::json!("C18/accepted-format-fails-on-rows");
+                info["what"] = serde_json::json!(format!("the format string was accepted, but the printed row {:?} is not its literal text with every placeholder replaced by the field's text", clip(line)));
+                ctx.case("format-any", &key, "viol", info);
+                return;
+            }
+        }
+    }
     match verdict {
         Ok(()) => ctx.case("format-any", &key, "pass", info),
         Err(w) => ctx.case("format-any", &key, "fdis", serde_json::json!({"what": w, "case": info})),
     }
+}
+
+/// the shape every output of an accepted format string must have: its literal text (`{{`, `}}`
+/// unescaped) in order, and in place of each `{key[:spec]}` some text that contains the field's text
+/// (cut to the precision if the spec has one; padding on either side is whatever the spec says).
+/// None when this scanner cannot split the string (then nothing is judged).
+fn accepted_format_shape(fmt: &str, data: &HashMap<String, Value>) -> Option<regex::Regex> {
+    let cs: Vec<char> = fmt.chars().collect();
+    let mut re = String::from("(?s)^");
+    let mut i = 0;
+    while i < cs.len() {
+        match cs[i] {
+            '{' if i + 1 < cs.len() && cs[i + 1] == '{' => {
+                re.push_str(&regex::escape("{"));
+                i += 2;
+            }
+            '}' if i + 1 < cs.len() && cs[i + 1] == '}' => {
+                re.push_str(&regex::escape("}"));
+                i += 2;
+            }
+            '{' => {
+                let end = (i + 1..cs.len()).find(|j| cs[*j] == '}')?;
+                let inner: String = cs[i + 1..end].iter().collect();
+                if inner.contains('{') {
+                    return None;
+                }
+                let (key, spec) = match inner.find(':') {
+                    Some(p) => (inner[..p].to_string(), inner[p + 1..].to_string()),
+                    None => (inner.clone(), String::new()),
+                };
+                let full = disp(data.get(&key).unwrap_or(&Value::None));
+                let want: String = match spec.rfind('.') {
+                    Some(p) => {
+                        let digits: String = spec[p + 1..].chars().take_while(|c| c.is_ascii_digit()).collect();
+                        match digits.parse::<usize>() {
+                            Ok(k) => full.chars().take(k).collect(),
+                            Err(_) => return None,
+                        }
+                    }
+                    None => full,
+                };
+                if spec.is_empty() {
+                    re.push_str(&regex::escape(&want));
+                } else {
+                    re.push_str(".*?");
+                    re.push_str(&regex::escape(&want));
+                    re.push_str(".*?");
+                }
+                i = end + 1;
+            }
+            '}' => return None,
+            c => {
+                re.push_str(&regex::escape(&c.to_string()));
+                i += 1;
+            }
+        }
+    }
+    re.push('$');
+    regex::RegexBuilder::new(&re).size_limit(1 << 24).build().ok()
 }
 
 /* end to end: query + input through Pipeline in every mode */
